@@ -109,11 +109,9 @@ ASMJIT_FAVOR_SIZE Error FuncFrame::init(const FuncDetail& func) noexcept {
   _sa_reg_id = uint8_t(Reg::kIdBad);
 
   uint32_t natural_stack_alignment = func.call_conv().natural_stack_alignment();
-  uint32_t min_dynamic_alignment = Support::max<uint32_t>(natural_stack_alignment, 16);
-
-  if (min_dynamic_alignment == natural_stack_alignment) {
-    min_dynamic_alignment <<= 1;
-  }
+  // Any alignment above the natural one can only be reached by aligning the stack dynamically (32-bit conventions
+  // guarantee 4 bytes only, so even 8 needs it).
+  uint32_t min_dynamic_alignment = natural_stack_alignment << 1;
 
   _natural_stack_alignment = uint8_t(natural_stack_alignment);
   _min_dynamic_alignment = uint8_t(min_dynamic_alignment);
